@@ -174,6 +174,16 @@ class Gen:
             lib["classes"] = [{"name": "Lib", "kind": "package", "alias": None, "extends": [], "comps": [], "classes": inner,
                                "eqs": [], "ieqs": [], "connects": []}] + outer
             self.tags.add("names:wrapper-class-shares-short-name-with-library-class")
+        elif r.random() < 0.25 and depth >= 1:
+            # the outermost class becomes a local class of the model that uses it:  model CL  model M ... end M;  M l;  end CL;
+            # (M's class-typed component carries the modifiers)
+            topc = [c for c in lib["classes"] if c["name"] == self.top][0]
+            lib["classes"].remove(topc)
+            CL = self.cls("CL", [self.comp("l", self.top)])
+            CL["classes"].append(topc)
+            lib["classes"].append(CL)
+            self.top = "CL"
+            self.tags.add("level:local-class-of-the-using-model")
         return lib
 
     def target_mods(self, subpath, sp, level, scope_names=None, full_path=None):
